@@ -25,7 +25,7 @@ def run(tier):
                    bounds=dict(values=g.describe(), calls=n, configurations="full matrix" if full is True else ([list(H.CONFIGS[0])] if full == "single" else [list(H.CONFIGS[i]) for i in full] if isinstance(full, tuple) else [list(c) for c in H.CONFIGS]),
                                k="all integers >= 0 (symbolic)"),
                    rule="one path = (configuration, call history shapes, k class)", describe=H.describe)
-    jobs = [J("c01_quick", 300, 5), J("c01_nestedx", 200, 6), J("c01_tuples", 200, 4), J("c01_odd", 300, 3), J("c01_gen2", 100, 3), J("c01_nestedalt", 200, 6)] if tier == "quick" else [J("c01_quick", 200, 5), J("c01_tuples", 100, 4), J("c01_odd", 200, 3), J("c01_gen2", 60, 3), J("c01_nestedalt", 100, 6), J("c01_nestedx", 200, 6), J("c01_nested2", 200, 6), J("c01_nested", 300, 7), J("c01_medium", 300, 5), J("c01_matrix", 300, 6), J("c01_three", 300, 5), J("c01_thorough", 300, 5)]
+    jobs = [J("c01_quick", 300, 5), J("c01_nestedx", 200, 6), J("c01_tuples", 200, 4), J("c01_odd_quick", 300, 3), J("c01_gen2", 100, 3), J("c01_nestedalt", 200, 6)] if tier == "quick" else [J("c01_quick", 200, 5), J("c01_tuples", 100, 4), J("c01_odd", 200, 3), J("c01_gen2", 60, 3), J("c01_nestedalt", 100, 6), J("c01_nestedx", 200, 6), J("c01_nested2", 200, 6), J("c01_nested", 300, 7), J("c01_medium", 300, 5), J("c01_matrix", 300, 6), J("c01_three", 300, 5), J("c01_thorough", 300, 5)]
     jobs.append(Job("harness.pipeline", "c01_realrun", H.shards("c01_realrun"), 400,
                     bounds=dict(workload="the fixture workload of C02's realrun (recorded profile events of ~40 code objects: real bytecode, real values)",
                                 rewriters=list(H.REWRITERS), flags=list(H.FLAGS), k="all integers >= 0 (symbolic)"),
